@@ -132,9 +132,42 @@ def topo_configs(repo, rng, tier):
         if os.path.exists(p):
             cfgs.append(("xml:" + x, ["src xml " + p], "xml", False, None))
             cfgs.append(("xml+this:" + x, ["src xml " + p, "flags 2"], "xml", True, None))
+    envx = os.path.join(xmld, "16em64t-4s2c2t-offlines.xml")
+    if os.path.exists(envx):
+        # backend forced through the environment (envvar_forced): the IS_THISSYSTEM flag does not override it
+        cfgs.append(("envxml", ["env HWLOC_XMLFILE " + envx, "src native"], "envxml", False, None))
+        cfgs.append(("envxml+this", ["env HWLOC_XMLFILE " + envx, "src native", "flags 2"], "envxml", True, None))
+        cfgs.append(("envxml+env1", ["env HWLOC_XMLFILE " + envx, "env HWLOC_THISSYSTEM 1", "src native"], "envxml", False, 1))
     cfgs.append(("native", ["src native"], "native", False, None))
     cfgs.append(("native+env0", ["env HWLOC_THISSYSTEM 0", "src native"], "native", False, 0))
     return cfgs
+
+
+def cfg_line(name, kind, flag, env):
+    """the '#cfg' script line: what hwloc_backends_is_thissystem will see at the next load"""
+    return "#cfg %s %d %d %d %s" % (name.replace(" ", "_"), 1 if kind in ("synthetic", "xml") else 0, 1 if flag else 0,
+                                    1 if kind == "envxml" else 0, "-" if env is None else str(env))
+
+
+def expected_thissystem_cfg(nonthis_normal, flag, nonthis_env, env):
+    """spec, from the LAST load's configuration only"""
+    it = not nonthis_normal
+    if flag:
+        it = True
+    if nonthis_env:
+        it = False
+    if env is not None:
+        it = env != 0
+    return it
+
+
+def failing_configs(verif):
+    """configurations whose hwloc_topology_load FAILS (well-formed XML with an object of unknown type)"""
+    bad = os.path.join(verif, "corpus", "c10", "bad-unknown-type.xml")
+    return [("fail:xml", ["src xml " + bad, "flags 0"], "xml", False, None),
+            ("fail:xml+this", ["src xml " + bad, "flags 2"], "xml", True, None),
+            ("fail:xml+env0", ["env HWLOC_THISSYSTEM 0", "src xml " + bad, "flags 0"], "xml", False, 0),
+            ("fail:xml+env1", ["env HWLOC_THISSYSTEM 1", "src xml " + bad, "flags 0"], "xml", False, 1)]
 
 
 def expected_thissystem(kind, flag, env):
